@@ -305,13 +305,30 @@ func init() {
 		out.Count("name_filters", 2*len(names))
 		// unknown names rejected, never ignored
 		unknownAccepted := []string{}
+		var kindCompanions []string
+		if l := g.CertificateLints().Names(); len(l) > 0 {
+			kindCompanions = append(kindCompanions, l[len(l)/2])
+		}
+		if l := g.RevocationListLints().Names(); len(l) > 0 {
+			kindCompanions = append(kindCompanions, l[0], l[len(l)-1])
+		}
+		if l := g.OcspResponseLints().Names(); len(l) > 0 {
+			kindCompanions = append(kindCompanions, l[0])
+		}
 		tryUnknown := func(n string) {
 			if nameSet[strings.TrimSpace(n)] {
 				return
 			}
-			for _, opts := range []lint.FilterOptions{
+			optsList := []lint.FilterOptions{
 				{IncludeNames: []string{n}}, {ExcludeNames: []string{n}},
-				{IncludeNames: []string{names[0], n}}, {ExcludeNames: []string{names[1], n, names[2]}}} {
+				{IncludeNames: []string{names[0], n}}, {ExcludeNames: []string{names[1], n, names[2]}}}
+			// next to a listed name of every object kind, before and after it
+			for _, comp := range kindCompanions {
+				optsList = append(optsList, lint.FilterOptions{IncludeNames: []string{comp, n}}, lint.FilterOptions{ExcludeNames: []string{comp, n}},
+					lint.FilterOptions{IncludeNames: []string{n, comp}}, lint.FilterOptions{ExcludeNames: []string{n, comp}}, lint.FilterOptions{IncludeNames: []string{comp}, ExcludeNames: []string{n}},
+					lint.FilterOptions{IncludeNames: []string{n}, ExcludeNames: []string{comp}})
+			}
+			for _, opts := range optsList {
 				if _, err := g.Filter(opts); err == nil {
 					unknownAccepted = append(unknownAccepted, n)
 					out.Violate("unknown-name-accepted:"+n, "unknown lint name silently accepted by Filter", n, "error", "no error")
